@@ -8,6 +8,7 @@ import (
 	"fmt"
 	"math"
 	"strings"
+	"sync"
 
 	"github.com/kelindar/column"
 	"github.com/zeebo/xxh3"
@@ -702,4 +703,39 @@ func findEnumCollisions() [][2]string {
 		}
 	}
 	return enumCollisions
+}
+
+func pairsAsGroups(ps [][2]string) [][]string {
+	var out [][]string
+	for _, p := range ps {
+		out = append(out, []string{p[0], p[1]})
+	}
+	return out
+}
+
+// Probe chains longer than one step (found offline by enumerating "e<n>" for n < 12M): in a
+// "chain" group the first two strings share the hash h and the third hashes to h+1; in a "same"
+// group all three share h. Interning the third string of a group after the others makes the
+// open-addressing probe of the enum column walk two slots. Each group is re-verified against the
+// hash function actually linked in; a group that does not hold (different xxh3) is dropped.
+var enumChainCandidates = [][]string{
+	{"e986261", "e1660045", "e8356440"},
+	{"e1386701", "e8346459", "e10666503"},
+	{"e14884", "e28738", "e6810011"},
+	{"e51965", "e916131", "e11348017"},
+}
+
+var enumChainsVerified [][]string
+var enumChainsOnce sync.Once
+
+func enumChains() [][]string {
+	enumChainsOnce.Do(func() {
+		for _, g := range enumChainCandidates {
+			h0, h1, h2 := uint32(xxh3.HashString(g[0])), uint32(xxh3.HashString(g[1])), uint32(xxh3.HashString(g[2]))
+			if h0 == h1 && (h2 == h0 || h2 == h0+1) {
+				enumChainsVerified = append(enumChainsVerified, g)
+			}
+		}
+	})
+	return enumChainsVerified
 }
